@@ -29,16 +29,30 @@
                              the by-digest index entries ...": the new resolver holds only
                              tagged and kept; [fixed = true] additionally keeps the old
                              by-digest entries of nodes that are in the new graph.
-   Reopen                    oci.New / NewFromFS / NewFromTar on the saved index.json:
-                             loadIndex = IndexAll for every entry (tagged, then by-digest).
+                             The merged code restores those entries in Store.GC right after
+                             gcIndex and then calls saveIndex, before the sweep
+                             ([save_late = true]); [save_late = false] is the variant that
+                             writes index.json before the entries are restored (only the
+                             roots reach the file, the resolver in memory is complete).
+   saveIndex                 every Push of a manifest, Tag, Untag, and a delete that untagged
+                             something write index.json := resolver ([osave]); the file is kept
+                             in o_dbydigest / o_dtagged.
+   Reopen                    oci.New / NewFromFS / NewFromTar on the index.json LAST WRITTEN:
+                             loadIndex tags every entry by digest (and by name) and runs IndexAll
+                             for it; the resolver of the reopened store is what the file names.
    A GC or reopen that runs out of fuel leaves the state unchanged and reports false. *)
 From Coq Require Import List NArith Bool.
 Import ListNotations.
-From Oras Require Import Model.GraphMem.
+From Oras Require Import Base.Prelude Generated.GC07 Model.GraphMem.
 
 Record ostore := mkO {
-  o_blobs : list node; o_bydigest : list node; o_tagged : list node; o_graph : graph }.
-Definition empty_store : ostore := mkO [] [] [] empty_graph.
+  o_blobs : list node; o_bydigest : list node; o_tagged : list node; o_graph : graph;
+  (* index.json as last written by saveIndex: by-digest-only entries and named entries *)
+  o_dbydigest : list node; o_dtagged : list node }.
+Definition empty_store : ostore := mkO [] [] [] empty_graph [] [].
+(* saveIndex (AutoSaveIndex): index.json := the resolver map *)
+Definition osave (s : ostore) : ostore :=
+  mkO (o_blobs s) (o_bydigest s) (o_tagged s) (o_graph s) (o_bydigest s) (o_tagged s).
 
 Inductive oop :=
 | PPush (n : node) | PTag (n : node) | PUntag (n : node) | PDelete (n : node)
@@ -47,40 +61,60 @@ Inductive oop :=
 Definition o_sok (isman : node -> bool) (s : ostore) : node -> bool :=
   fun x => negb (isman x) || smem x (o_blobs s).
 
-Definition ostep (fixed : bool) (content : node -> list node) (isman : node -> bool)
+Definition ostep (fixed save_late : bool) (content : node -> list node) (isman : node -> bool)
            (fuel : nat) (s : ostore) (o : oop) : ostore * bool :=
   match o with
   | PPush n =>
       if smem n (o_blobs s) then (s, true)
-      else (mkO (n :: o_blobs s)
-                (if isman n then sadd n (o_bydigest s) else o_bydigest s)
-                (o_tagged s)
-                (index (o_graph s) n (content n)), true)
+      else
+        let g := index (o_graph s) n (content n) in
+        if isman n
+        then (osave (mkO (n :: o_blobs s) (sadd n (o_bydigest s)) (o_tagged s) g
+                         (o_dbydigest s) (o_dtagged s)), true)      (* tag by digest + saveIndex *)
+        else (mkO (n :: o_blobs s) (o_bydigest s) (o_tagged s) g (o_dbydigest s) (o_dtagged s), true)
   | PTag n =>
       if smem n (o_blobs s)
-      then (mkO (o_blobs s) (sadd n (o_bydigest s)) (sadd n (o_tagged s)) (o_graph s), true)
+      then (osave (mkO (o_blobs s) (sadd n (o_bydigest s)) (sadd n (o_tagged s)) (o_graph s)
+                       (o_dbydigest s) (o_dtagged s)), true)
       else (s, true)
   | PUntag n =>
-      (mkO (o_blobs s) (o_bydigest s) (sdel n (o_tagged s)) (o_graph s), true)
+      (osave (mkO (o_blobs s) (o_bydigest s) (sdel n (o_tagged s)) (o_graph s)
+                  (o_dbydigest s) (o_dtagged s)), true)
   | PDelete n =>
-      (mkO (sdel n (o_blobs s)) (sdel n (o_bydigest s)) (sdel n (o_tagged s))
-           (fst (remove (o_graph s) n)), true)
+      let s' := mkO (sdel n (o_blobs s)) (sdel n (o_bydigest s)) (sdel n (o_tagged s))
+                    (fst (remove (o_graph s) n)) (o_dbydigest s) (o_dtagged s) in
+      (* `if untagged && s.AutoSaveIndex { saveIndex }` *)
+      if smem n (o_bydigest s) || smem n (o_tagged s) then (osave s', true) else (s', true)
   | PGC kept =>
       let roots := o_tagged s ++ kept in
       let (g', ok) := load content (o_sok isman s) fuel roots in
       if ok then
-        (mkO (filter (exists_node g') (o_blobs s))
-             (roots ++ (if fixed then filter (exists_node g') (o_bydigest s) else []))
-             (o_tagged s) g', true)
+        let restored := if fixed then filter (exists_node g') (o_bydigest s) else [] in
+        let blobs' := filter (exists_node g') (o_blobs s) in
+        if save_late
+        then (osave (mkO blobs' (roots ++ restored) (o_tagged s) g' (o_dbydigest s) (o_dtagged s)), true)
+        else (mkO blobs' (roots ++ restored) (o_tagged s) g' roots (o_tagged s), true)
       else (s, false)
   | PReopen =>
-      let (g', ok) := load content (o_sok isman s) fuel (o_tagged s ++ o_bydigest s) in
-      if ok then (mkO (o_blobs s) (o_bydigest s) (o_tagged s) g', true) else (s, false)
+      let roots := o_dtagged s ++ o_dbydigest s in
+      let (g', ok) := load content (o_sok isman s) fuel roots in
+      if ok then (mkO (o_blobs s) roots (o_dtagged s) g' (o_dbydigest s) (o_dtagged s), true)
+      else (s, false)
   end.
 
-Fixpoint orun fixed content isman fuel (s : ostore) (ops : list oop) : ostore * bool :=
+Fixpoint orun fixed save_late content isman fuel (s : ostore) (ops : list oop) : ostore * bool :=
   match ops with
   | [] => (s, true)
-  | o :: r => let (s1, ok1) := ostep fixed content isman fuel s o in
-              let (s2, ok2) := orun fixed content isman fuel s1 r in (s2, ok1 && ok2)
+  | o :: r => let (s1, ok1) := ostep fixed save_late content isman fuel s o in
+              let (s2, ok2) := orun fixed save_late content isman fuel s1 r in (s2, ok1 && ok2)
+  end.
+
+(* Is index.json written by Store.GC AFTER the digest references of the reachable content
+   have been restored?  Read off the source on every run: Generated.GC07.calls_GC is the
+   source-order sequence of the calls s.gcIndex / s.tagResolver.Tag / s.saveIndex in
+   Store.GC (translator kind "callseq"). *)
+Definition gc_save_after_restore : bool :=
+  match calls_GC with
+  | [a; t; w] => str_eqb a (b "s.gcIndex") && str_eqb t (b "s.tagResolver.Tag") && str_eqb w (b "s.saveIndex")
+  | _ => false
   end.
